@@ -1244,19 +1244,44 @@ class Interp:
     def e_GeneratorExp(self, node, env):
         # python evaluates the outermost iterable when the generator is created
         first = self.eval(node.generators[0].iter, env)
-        from .heapmodel import SAbstractSet
+        from .heapmodel import SAbstractSet, heap_of
+        if hasattr(first, 'as_abstract_set'):
+            first = first.as_abstract_set(self)
         if isinstance(first, SAbstractSet):
-            # (f(a) for a in <abstract set>): the same members, seen through the element expression
-            if len(node.generators) != 1 or node.generators[0].ifs:
-                raise Unsupported('filtered / nested generator over an abstract set', node)
+            # (f(a) for a in <abstract set> if c(a)): the members that pass the filter (judged on the heap as it is now:
+            # the consumer materialises the generator at once), seen through the element expression
+            if len(node.generators) != 1:
+                raise Unsupported('nested generator over an abstract set', node)
             g = node.generators[0]
             frozen = Env(dict(env.vars), env.parent, env.module)
+            snap = dict(heap_of(self.ex))
 
             def element(interp, n, _base=first.element):
                 cenv = Env({}, frozen, frozen.module)
                 interp.assign(g.target, _base(interp, n), cenv)
                 return interp.eval(node.elt, cenv)
-            return SAbstractSet(first.member, first.label, element=element)
+
+            def member(n, _m=first.member, _base=first.element):
+                t = _m(n)
+                if not g.ifs:
+                    return t
+                interp = self
+                keep = interp.ex.heap
+                interp.ex.heap = snap
+                try:
+                    cenv = Env({}, frozen, frozen.module)
+                    interp.assign(g.target, _base(interp, n), cenv)
+                    conds = []
+                    for c in g.ifs:
+                        v = interp.eval(c, cenv)
+                        tt = v.t if isinstance(v, SBool) else interp.truth_term(v)
+                        if tt is None:
+                            raise Unsupported('filter of a generator over an abstract set is not a plain condition', node)
+                        conds.append(tt if not isinstance(tt, bool) else z3.BoolVal(tt))
+                finally:
+                    interp.ex.heap = keep
+                return z3.And(t, *conds)
+            return SAbstractSet(member, first.label, element=element)
         return LazyGen(self, node, env, first)
 
     def e_SetComp(self, node, env):
@@ -1701,6 +1726,11 @@ class Interp:
         raise Unsupported(f'call of {func!r}', node)
 
     def instantiate(self, cls, args, kwargs, node):
+        if cls.name in ('AddressRange', 'AddressCell') and args:
+            from .heapmodel import SAddrKey, SAddrObj
+            if isinstance(args[0], (SAddrKey, SAddrObj)):
+                # the address of a node of the model, normalised: the same address (C11: constructors are idempotent)
+                return SAddrObj(args[0].node)
         if cls.is_exception():
             return SObj(cls, {'args': tuple(args)})
         c, new = cls.find('__new__')
@@ -1907,7 +1937,12 @@ class Interp:
         return f
 
     def s_FunctionDef(self, node, env):
-        f = Closure(node, env, env.module, node.name)
+        # qualified like a contract target: Class.method.nested
+        e = env
+        while e is not None and getattr(e, 'func', None) is None:
+            e = e.parent
+        outer = getattr(e.func, 'name', None) if e is not None else None
+        f = Closure(node, env, env.module, f'{outer}.{node.name}' if outer else node.name)
         f = self.apply_decorators(node, f, env)
         env.vars[node.name] = f
 
@@ -1915,6 +1950,20 @@ class Interp:
         env.vars[node.name] = ClassModel(node, env.module)
 
     def s_Assign(self, node, env):
+        vr = self.world.verifier
+        hs = getattr(getattr(vr, 'active', None), 'heap_sets', ()) if vr is not None else ()
+        if (hs and len(node.targets) == 1 and isinstance(node.targets[0], ast.Name) and node.targets[0].id in hs
+                and isinstance(node.value, ast.Call) and isinstance(node.value.func, ast.Name)
+                and node.value.func.id == 'set' and not node.value.args):
+            # a local set of cell addresses that the contract speaks about: kept as a heap field
+            from . import heapmodel as HM
+            name = node.targets[0].id
+            HM.declare_heap_set(name)
+            h = dict(HM.heap_of(self.ex))
+            h['set:' + name] = z3.K(HM.Node, False)
+            self.ex.heap = h
+            env.vars[name] = HM.SNodeSet(name)
+            return
         v = self.eval(node.value, env)
         for tgt in node.targets:
             self.assign(tgt, v, env)
@@ -2111,6 +2160,17 @@ class Interp:
 
     def s_For(self, node, env):
         from .seqs import SSeq
+        vr = self.world.verifier
+        gb = getattr(getattr(vr, 'active', None), 'ghost_before_loop', None) if vr is not None else None
+        if gb and not vr.in_spec:
+            e = env
+            while e is not None and getattr(e, 'func', None) is None:
+                e = e.parent
+            if e is not None and e.func.node is getattr(vr, 'active_node', None):
+                from .loops import loop_ordinal
+                k = loop_ordinal(e.func.node, node)
+                if k in gb:
+                    gb[k](vr, self, env)
         it = self.eval(node.iter, env)
         from .vc import loop_hook
         from .heapmodel import SAbstractSet
